@@ -101,3 +101,92 @@ Example C02_directory_mode_refuted :
   lookup (r_final r) [[105; 110]; [97]; [107]] = Some NDir /\         (* in/a/k: the OTHER c was renamed *)
   lookup (r_final r) [[105; 110]; [122]; [107]] = Some (NFile 1).      (* in/z/k: the file that made the first attempt a conflict *)
 Proof. vm_compute. repeat split. Qed.
+
+(* ---------- the first part of the FULL STATEMENT, proved for name mode (Pipe/PlanExact.v) -------------------- *)
+(* [selected_ok s plan]: every entry is (f, RText t) with a relative path without "..", chdir to its input       *)
+(* directory lands on that very path, lstat of the relative path there finds a file or symbolic link at exactly  *)
+(* input directory/relative path ([selected_node], so no symbolic link on the way), t is a valid name other than *)
+(* "..", and the real source paths are pairwise distinct.  [apply_plan s plan] = the initial tree with every     *)
+(* selected source key replaced, simultaneously, by input directory/parent/t; nodes and list order unchanged.    *)
+(* No hypothesis about the containment tests, the order of the plan, collisions or deferrals: whatever happens,  *)
+(* status 0 implies the equality.                                                                                 *)
+From Tempren Require Import Pipe.PlanExact.
+
+Theorem C02_success_exact_name_mode : forall c plan cwd s,
+  c_mode c = MName -> c_strategy c = Stop -> c_dry c = false -> c_fault c = None -> c_var c = fixed ->
+  WF s -> selected_ok s plan ->
+  r_status (run c plan cwd s) = 0%Z ->
+  forall k, lookup (r_final (run c plan cwd s)) k = lookup (apply_plan s plan) k.
+Proof. exact success_exact_name_mode. Qed.
+Print Assumptions C02_success_exact_name_mode.
+
+(* stronger: the final tree IS that list (same order, same nodes) *)
+Theorem C02_success_exact_name_mode_list : forall c plan cwd s,
+  c_mode c = MName -> c_strategy c = Stop -> c_dry c = false -> c_fault c = None -> c_var c = fixed ->
+  WF s -> selected_ok s plan ->
+  r_status (run c plan cwd s) = 0%Z ->
+  r_final (run c plan cwd s) = apply_plan s plan.
+Proof. exact success_exact_name_mode_list. Qed.
+Print Assumptions C02_success_exact_name_mode_list.
+
+(* read entry by entry: every selected file is found at input directory/generated name with its own node ... *)
+Theorem C02_success_selected_at_destination : forall c plan cwd s,
+  c_mode c = MName -> c_strategy c = Stop -> c_dry c = false -> c_fault c = None -> c_var c = fixed ->
+  WF s -> selected_ok s plan ->
+  r_status (run c plan cwd s) = 0%Z ->
+  forall f t, In (f, RText t) plan ->
+    lookup (r_final (run c plan cwd s)) (dst_key f t) = lookup s (src_key f) /\
+    exists n, lookup s (src_key f) = Some n /\ is_dir_node n = false.
+Proof. exact success_selected_at_destination. Qed.
+Print Assumptions C02_success_selected_at_destination.
+
+(* ... and every entry that is not a selected source is where it was *)
+Theorem C02_success_unselected_untouched : forall c plan cwd s,
+  c_mode c = MName -> c_strategy c = Stop -> c_dry c = false -> c_fault c = None -> c_var c = fixed ->
+  WF s -> selected_ok s plan ->
+  r_status (run c plan cwd s) = 0%Z ->
+  forall k n, (forall f t, In (f, RText t) plan -> src_key f <> k) -> In (k, n) s ->
+    lookup (r_final (run c plan cwd s)) k = Some n.
+Proof. exact success_unselected_untouched. Qed.
+Print Assumptions C02_success_unselected_untouched.
+
+(* second part of the FULL STATEMENT ("all destinations free -> r_status = 0"), name mode: if every
+   destination that differs from its source is a free name of the initial tree (short enough for the bounded walk
+   of the model: realpath's final stat) and no two of them coincide, the run reports 0 and the plan is applied *)
+Theorem C02_all_free_succeeds : forall c plan cwd s,
+  c_mode c = MName -> c_strategy c = Stop -> c_dry c = false -> c_fault c = None -> c_var c = fixed ->
+  WF s -> selected_ok s plan -> all_free s plan ->
+  r_status (run c plan cwd s) = 0%Z /\ r_final (run c plan cwd s) = apply_plan s plan.
+Proof. exact all_free_succeeds. Qed.
+Print Assumptions C02_all_free_succeeds.
+
+(* the boolean checker the harness can evaluate on a generated case implies the hypothesis *)
+Theorem C02_selected_okb_sound : forall s plan, selected_okb s plan = true -> selected_ok s plan.
+Proof. exact selected_okb_sound. Qed.
+Print Assumptions C02_selected_okb_sound.
+
+(* the lstat condition follows from the tree alone for paths the bounded walk of the model can process *)
+Theorem C02_lookup_selected_node : forall s f n,
+  WF s -> pp_root (pf_rel f) = 0%nat -> lookup s (pf_dir f) = Some NDir ->
+  no_dotdot (pp_parts (pf_rel f)) = true -> pp_parts (pf_rel f) <> [] ->
+  (length (pp_parts (pf_rel f)) <= walk_fuel)%nat ->
+  lookup s (src_key f) = Some n -> is_dir_node n = false ->
+  selected_node s f = Some n.
+Proof. exact lookup_selected_node. Qed.
+Print Assumptions C02_lookup_selected_node.
+
+(* non-vacuity: the chain in/0->1, in/1->2, in/2->3 visited front to back (two deferrals, retried newest first),
+   a renamed symbolic link in a subdirectory, a skipped file and unselected entries: the hypotheses hold, the run
+   reports 0 and both sides of the conclusion evaluate to the same tree *)
+Example C02_chain_with_deferrals_is_exact :
+  WF ex_fs /\ selected_ok ex_fs ex_plan /\
+  r_status (run ex_cfg ex_plan [] ex_fs) = 0%Z /\
+  r_final (run ex_cfg ex_plan [] ex_fs) = apply_plan ex_fs ex_plan /\
+  map (fun x => fst (fst x)) (r_report (run ex_cfg ex_plan [] ex_fs)) = [[50]; [115;117;98;47;120]; [49]; [48]] /\
+  lookup (apply_plan ex_fs ex_plan) [ex_in; [49]] = Some (NFile 1) /\
+  lookup (apply_plan ex_fs ex_plan) [ex_in; [50]] = Some (NFile 2) /\
+  lookup (apply_plan ex_fs ex_plan) [ex_in; [51]] = Some (NFile 3) /\
+  lookup (apply_plan ex_fs ex_plan) [ex_in; [48]] = None.
+Proof.
+  split; [exact ex_wf|]. split; [exact ex_selected_ok|]. vm_compute. repeat split.
+Qed.
